@@ -18,6 +18,7 @@ BK = 'FileBackups._backups'
 PAIR = SH[BK].args[0].sort()
 is_temp = z3.Function('is_temp_path', StrS, z3.BoolSort())
 x = z3.Const('bk!x', StrS)
+i_ = z3.Const('bk!i', z3.IntSort())
 
 CONTRACTS = []
 
@@ -30,9 +31,38 @@ def outside_temp_unchanged(c, also=None):
     return ForAll([x], Implies(cond, k1[x] == k0[x]))
 
 
-CONTRACTS.append(Contract(
-    M + 'back_up_and_remove', props=['C02', 'C03', 'C14'], trusted=True,
+TD = 'FileBackups._temp_dir'
+OTD = SH[TD].sort()
+from pyvc.lib import SIMPLE_NAME, ALL_SIMPLE      # noqa: E402
+
+
+def entered(c):
+    """the object is inside its `with` block: the backup directory was made by mkdtemp, it and its
+    ancestors are directories, and "is a backup path" means "lies strictly below it".  Established
+    by __enter__; user code cannot reach the directory's name (protocol assumption)."""
+    t = OTD.val(c.old(TD, c.self))
+    k = c.gold('fs_kind')
+    return And(OTD.is_some(c.old(TD, c.self)),
+               ForAll([x], Implies(anc(x, t), k[x] == K_DIR)),
+               ForAll([x], is_temp(x) == And(anc(t, x), x != t)),
+               Not(is_temp(c.filename)))
+
+
+def backup_rename_guard(eng, st, args):
+    """C03/C02: the file is moved into the backup directory, nowhere else"""
+    return [('moves-only-into-the-backup-directory',
+             And(args[0] == eng.cur_args['filename'].t, is_temp(args[1])), ['C03', 'C02'])]
+
+
+def backup_makedirs_guard(eng, st, args):
+    t = OTD.val(eng.hread(st, TD, eng.cur_args['self'].t))
+    return [('creates-directories-only-in-the-backup-directory', anc(t, args[0]), ['C03', 'C02'])]
+
+
+BACKUP = Contract(
+    M + 'back_up_and_remove', props=['C02', 'C03', 'C14'],
     params={'self': FBK, 'filename': STR}, returns=BOOL,
+    requires=lambda c: [('assume-entered', entered(c))],
     ensures=lambda c: [
         ('moved-iff-it-was-a-regular-file', c.res == (c.gold('fs_kind')[c.filename] == K_FILE)),
         ('gone-afterwards', Implies(c.gold('fs_kind')[c.filename] != K_ABSENT,
@@ -58,15 +88,84 @@ CONTRACTS.append(Contract(
         ('no-callback', c.gnew('ncalls') == c.gold('ncalls'))])],
     modifies=lambda c: [(BK, c.self), ('FileBackups._next_backup_index', c.self), 'g:fs_kind',
                         'g:eff', 'g:fs_epoch', 'g:vstate'],
-    notes='os.rename(filename, <fresh path in the backup directory>); FileNotFoundError -> False'))
+    local_types={'components': LIST(STR), 'value': INT},
+    loops={0: LoopSpec(modifies=lambda c: [], inv=lambda c: [
+        ('no-callback', c.gnew('ncalls') == c.gentry('ncalls')),
+        ('nothing-touched-yet', And(c.gnew('fs_kind') == c.gentry('fs_kind'),
+                                    c.gnew('eff') == c.gentry('eff'),
+                                    c.new(BK, c.self) == c.entry(BK, c.self))),
+        ('components-are-plain-names', ALL_SIMPLE(c.v('components')))])},
+    lemmas=['ANC', 'PATHS'],
+    notes='os.rename(filename, <path in the backup directory>); FileNotFoundError -> False; '
+          'that the backup path is not yet in use (index -> path injective) is NOT proved: '
+          'bounded stand-in file_backups')
+BACKUP.guards = {'rename': backup_rename_guard, 'makedirs': backup_makedirs_guard}
+BACKUP.lock_guards = {BK: '_lock', 'FileBackups._next_backup_index': '_lock'}
+CONTRACTS.append(BACKUP)
 
-CONTRACTS.append(Contract(
-    M + 'restore_all', props=['C02', 'C03', 'C14'], trusted=True,
+def _orig(b, i):
+    return PAIR.t0(b[i])
+
+
+def restore_replace_guard(eng, st, args):
+    """C03: the only file restore_all writes is the original position of a recorded backup, from
+    its recorded backup path"""
+    b0 = eng.hread(eng.entry_state, BK, eng.cur_args['self'].t)
+    src, dst = args[0], args[1]
+    return [('restores-only-recorded-backups-to-their-origin', z3.Exists([i_], And(
+        i_ >= 0, i_ < z3.Length(b0), PAIR.t0(b0[i_]) == dst, PAIR.t1(b0[i_]) == src)),
+        ['C03', 'C02'])]
+
+
+def restore_makedirs_guard(eng, st, args):
+    b0 = eng.hread(eng.entry_state, BK, eng.cur_args['self'].t)
+    return [('creates-only-the-parent-of-a-backed-up-file', z3.Exists([i_], And(
+        i_ >= 0, i_ < z3.Length(b0), dirname(PAIR.t0(b0[i_])) == args[0])), ['C03', 'C02'])]
+
+
+def _handled(c, p):
+    """what C02 needs of one backup (p = where the file belongs): a move onto p succeeded, or p
+    is a directory (the documented case in which the file cannot be put back), or the OS refused
+    (creating the parent, or the move itself)"""
+    return Or(c.gnew('mv_done')[p], c.gnew('obs_dir')[p], c.gnew('os_failed')[p],
+              c.gnew('os_failed')[dirname(p)])
+
+
+def _restore_stable(c):
+    """the outcome / observation logs only grow"""
+    return And(ForAll([x], Implies(c.gold('obs_dir')[x], c.gnew('obs_dir')[x])),
+               ForAll([x], Implies(c.gold('mv_done')[x], c.gnew('mv_done')[x])),
+               ForAll([x], Implies(c.gold('os_failed')[x], c.gnew('os_failed')[x])))
+
+
+RESTORE = Contract(
+    M + 'restore_all', props=['C02', 'C03', 'C14'],
     params={'self': FBK},
     ensures=lambda c: [
         ('list-emptied', z3.Length(c.new(BK, c.self)) == 0),
         ('effects-appended', log_prefix(c.gold('eff'), c.gnew('eff'))),
-        ('no-callback', c.gnew('ncalls') == c.gold('ncalls'))],
-    modifies=lambda c: [(BK, c.self), 'g:fs_kind', 'g:eff', 'g:fs_epoch', 'g:vstate'],
-    notes='never raises; for each (path, backup) in order: skipped if path is a directory, '
-          'else makedirs(parent) and os.replace(backup, path)'))
+        ('no-callback', c.gnew('ncalls') == c.gold('ncalls')),
+        # C02 ("every regular file that existed before the call exists ..."): no backup is
+        # skipped -- each one was moved back, or could not be for one of the documented reasons
+        ('every-backup-is-restored-unless-directory-or-os-error', ForAll([i_], Implies(
+            And(i_ >= 0, i_ < z3.Length(c.old(BK, c.self))),
+            _handled(c, _orig(c.old(BK, c.self), i_)))), ['C02', 'C03']),
+    ],
+    # C02.R2: never raises (raises=[]: every exceptional path is an obligation)
+    modifies=lambda c: [(BK, c.self), 'g:fs_kind', 'g:eff', 'g:fs_epoch', 'g:vstate',
+                        'g:mv_done', 'g:os_failed', 'g:obs_dir'],
+    loops={0: LoopSpec(inv=lambda c: [
+        ('no-callback', c.gnew('ncalls') == c.gentry('ncalls')),
+        ('effects-appended', log_prefix(c.gentry('eff'), c.gnew('eff'))),
+        ('list-stays-empty', z3.Length(c.new(BK, c.self)) == 0),
+        ('iterates-the-recorded-backups', c.loop['seq'] == c.entry(BK, c.self)),
+        ('visited-backups-are-handled', ForAll([i_], Implies(
+            And(i_ >= 0, i_ < c.loop['i']), _handled(c, _orig(c.entry(BK, c.self), i_)))),
+         ['C02', 'C03']),
+        ('logs-grow', _restore_stable(c)),
+    ])},
+    notes='for each (path, backup) in order: skipped if path is a directory, else '
+          'makedirs(parent) and os.replace(backup, path); OSErrors are logged and skipped')
+RESTORE.guards = {'replace': restore_replace_guard, 'makedirs': restore_makedirs_guard}
+RESTORE.lock_guards = {BK: '_lock', 'FileBackups._next_backup_index': '_lock'}
+CONTRACTS.append(RESTORE)
